@@ -90,7 +90,8 @@ def run(chk):
   chk.notes['replay_hits'] = dict(sorted(hits.items()))
   for need in ('Set', 'Insert', 'Del', 'Clone', 'New', 'EnterOv', 'ExitOv', 'Read', 'attach', 'placeholder_reads',
                'read:err', 'read:node', 'read:value', 'read:iter', 'resolution_changed', 'resolution_changed:attach',
-               'resolution_changed:detach', 'resolution_changed:scope', 'repr:ok', 'repr:cyclic'):
+               'resolution_changed:detach', 'resolution_changed:scope', 'repr:ok', 'repr:cyclic', 'EnterOv:attrs',
+               'EnterOv:plain', 'Clone:deep', 'Clone:shallow'):
     chk.require(hits.get(need, 0) > 0, f'vacuous: no replayed step exercised {need}')
 
 
